@@ -233,6 +233,15 @@ Proof.
 Qed.
 Print Assumptions C09_controllers_are_generated_steps.
 
+(* the error measure of each controller (GENERATED from the source: the expression under `p = (tol / (error + 1e-30)) ** (1/order)`) is
+   a relative error: multiplying the state by any c <> 0 multiplies the distance of the two solutions and the norm by |c| and leaves the
+   measure -- hence the enlargement factor and every accept / reject decision -- unchanged *)
+Theorem C09_error_measure_scale_invariant : forall c d n : Q, ~ c == 0 ->
+  tdvp_err_gen (c * d) (c * n) == tdvp_err_gen d n /\ pc_err_gen (c * d) (c * n) == pc_err_gen d n
+  /\ tdrk_err_gen (c * d) (c * n) == tdrk_err_gen d n.
+Proof. exact err_gen_scale_invariant. Qed.
+Print Assumptions C09_error_measure_scale_invariant.
+
 (* non-vacuity: a run with one rejection and four accepted steps (target 1, guess 1) *)
 Example C09_controller_runs :
   exists tr g', tdvp_run 10 est_reject_once 1 1 = Some (tr, g') /\ length tr = 5%nat /\ same_dir 1 1.
